@@ -116,6 +116,8 @@ pub struct RefTrace {
     pub n_cfg: usize,
     /// vars() prescribed after row-level error items (item index -> variables)
     pub err_vars: BTreeMap<usize, BTreeMap<String, i64>>,
+    /// unified indices of virtual signals that were part of the configured signal list
+    pub list_virtuals: Vec<usize>,
 }
 
 #[derive(Clone, Debug, Serialize)]
@@ -555,10 +557,19 @@ impl<'a> Interp<'a> {
                 None => ExpVal::X,
             };
             expected.push((ui, ev));
-            let ov = if ui < self.n_cfg {
+            let ov = if ui < self.n_cfg && !matches!(self.sigs[ui].kind, SigKind::Virtual(_)) {
                 match answers.get(&self.sigs[ui].name) {
                     Some(v) => *v,
                     None => OutVal::X,
+                }
+            } else if ui < self.n_cfg {
+                // a virtual signal that came with the signal list
+                let sigs = self.sigs;
+                let SigKind::Virtual(expr) = &sigs[ui].kind else { unreachable!() };
+                self.stats.virtual_evals += 1;
+                match self.eval(expr, Some(&answers)) {
+                    Ok(v) => OutVal::V(v),
+                    Err(e) => return self.row_level_error(e, vars),
                 }
             } else {
                 let (name, expr) = self.virtuals[ui - self.n_cfg].clone();
@@ -749,6 +760,7 @@ pub fn run(p: &Program, sigs: &[Sig], script: &Script, opts: RefOpts) -> RefOutc
             SigKind::In(_) => {}
             SigKind::Out => exp_cols.push((i, col_of(&s.name), s.bits)),
             SigKind::Bidir(_) => exp_cols.push((i, col_of(&format!("{}_out", s.name)), s.bits)),
+            SigKind::Virtual(_) => exp_cols.push((i, col_of(&s.name), 64)),
         }
     }
     for (k, (n, _)) in virtuals.iter().enumerate() {
@@ -806,7 +818,7 @@ pub fn run(p: &Program, sigs: &[Sig], script: &Script, opts: RefOpts) -> RefOutc
                 })
                 .collect();
             it.prev_read = HashMap::new();
-            let reads = crate::scope::analyse(p).output_reads;
+            let reads = crate::scope::test_output_reads(p, sigs);
             let missing: Vec<String> = reads
                 .into_iter()
                 .filter(|n| !it.last_read.contains_key(n))
@@ -853,5 +865,6 @@ pub fn run(p: &Program, sigs: &[Sig], script: &Script, opts: RefOpts) -> RefOutc
         draws_left,
         n_cfg,
         err_vars: it.err_vars,
+        list_virtuals: sigs.iter().enumerate().filter(|(_, s)| matches!(s.kind, SigKind::Virtual(_))).map(|(i, _)| i).collect(),
     }))
 }
